@@ -51,15 +51,30 @@ namespace BitSerializer::Detail
 			outTimestamp.Seconds = std::chrono::duration_cast<std::chrono::seconds>(epochTime).count();
 			const auto leftTime = epochTime - std::chrono::duration_cast<TDuration>(std::chrono::seconds(outTimestamp.Seconds));
 			outTimestamp.Nanoseconds = static_cast<int32_t>(std::chrono::duration_cast<std::chrono::nanoseconds>(leftTime).count());
+			// Nanoseconds must be in the range 0..999999999 (times before the epoch are rounded down to whole seconds)
+			if (outTimestamp.Nanoseconds < 0)
+			{
+				--outTimestamp.Seconds;
+				outTimestamp.Nanoseconds += 1000000000;
+			}
 		}
 	}
 
 	template <typename TClock, typename TDuration>
 	void To(const CBinTimestamp& timestamp, std::chrono::time_point<TClock, TDuration>& outTimePoint)
 	{
+		// Times before the epoch are stored as whole seconds rounded down plus positive nanoseconds,
+		// convert them as `(seconds + 1) - (1s - nanoseconds)` to avoid an intermediate overflow near the minimum
+		auto seconds = timestamp.Seconds;
+		auto nanoseconds = timestamp.Nanoseconds;
+		if (seconds < 0 && nanoseconds > 0)
+		{
+			++seconds;
+			nanoseconds -= 1000000000;
+		}
 		outTimePoint = std::chrono::time_point<TClock, TDuration>(
-			Convert::Detail::SafeDurationCast<TDuration>(std::chrono::seconds(timestamp.Seconds)));
-		if (timestamp.Nanoseconds)
+			Convert::Detail::SafeDurationCast<TDuration>(std::chrono::seconds(seconds)));
+		if (nanoseconds)
 		{
 			// When duration period is greater than seconds (allowed rounding only seconds fractions)
 			if constexpr (std::ratio_greater_v<typename TDuration::period, std::chrono::seconds::period>)
@@ -69,7 +84,7 @@ namespace BitSerializer::Detail
 			else
 			{
 				// Only seconds fractions can be rounded to target type
-				auto leftTime = std::chrono::round<TDuration>(std::chrono::nanoseconds(timestamp.Nanoseconds));
+				auto leftTime = std::chrono::round<TDuration>(std::chrono::nanoseconds(nanoseconds));
 				Convert::Detail::SafeAddDuration(outTimePoint, leftTime);
 			}
 		}
@@ -91,6 +106,12 @@ namespace BitSerializer::Detail
 			outTimestamp.Seconds = std::chrono::duration_cast<std::chrono::seconds>(duration).count();
 			const auto leftTime = duration - std::chrono::duration_cast<std::chrono::duration<TRep, TPeriod>>(std::chrono::seconds(outTimestamp.Seconds));
 			outTimestamp.Nanoseconds = static_cast<int32_t>(std::chrono::duration_cast<std::chrono::nanoseconds>(leftTime).count());
+			// Nanoseconds must be in the range 0..999999999 (negative durations are rounded down to whole seconds)
+			if (outTimestamp.Nanoseconds < 0)
+			{
+				--outTimestamp.Seconds;
+				outTimestamp.Nanoseconds += 1000000000;
+			}
 		}
 	}
 
@@ -99,8 +120,16 @@ namespace BitSerializer::Detail
 	{
 		using TDuration = std::chrono::duration<TRep, TPeriod>;
 
-		outDuration = Convert::Detail::SafeDurationCast<TDuration>(std::chrono::seconds(timestamp.Seconds));
-		if (timestamp.Nanoseconds)
+		// Negative values are stored as whole seconds rounded down plus positive nanoseconds (see above)
+		auto seconds = timestamp.Seconds;
+		auto nanoseconds = timestamp.Nanoseconds;
+		if (seconds < 0 && nanoseconds > 0)
+		{
+			++seconds;
+			nanoseconds -= 1000000000;
+		}
+		outDuration = Convert::Detail::SafeDurationCast<TDuration>(std::chrono::seconds(seconds));
+		if (nanoseconds)
 		{
 			// When duration period is greater than seconds (allowed rounding only seconds fractions)
 			if constexpr (std::ratio_greater_v<TPeriod, std::chrono::seconds::period>)
@@ -110,7 +139,7 @@ namespace BitSerializer::Detail
 			else
 			{
 				// Only seconds fractions can be rounded to target type
-				Convert::Detail::SafeAddDuration(outDuration, std::chrono::round<TDuration>(std::chrono::nanoseconds(timestamp.Nanoseconds)));
+				Convert::Detail::SafeAddDuration(outDuration, std::chrono::round<TDuration>(std::chrono::nanoseconds(nanoseconds)));
 			}
 		}
 	}
